@@ -4,6 +4,7 @@ import (
 	"fmt"
 	"go/token"
 	"go/types"
+	"sort"
 	"strings"
 
 	"golang.org/x/tools/go/ssa"
@@ -31,6 +32,8 @@ type poolEscape struct {
 	found []string
 	notes []string
 	depth int
+	// goIn: the functions that start a goroutine holding the pooled memory (the construct a goroutine finding is named by)
+	goIn []string
 }
 
 func isPoolGet(in ssa.Instruction) (ssa.Value, bool) {
@@ -235,6 +238,9 @@ func (p *poolEscape) scanEscapes(fn *ssa.Function, depth int) {
 						}
 						if isA {
 							p.found = append(p.found, p.c.Pos(in.Pos())+": captured by a goroutine that is not joined before the buffer is returned to the pool")
+							if in.Parent() != nil {
+								p.goIn = append(p.goIn, fname(topParent(in.Parent())))
+							}
 						}
 					}
 				}
@@ -255,6 +261,7 @@ func (p *poolEscape) scanEscapes(fn *ssa.Function, depth int) {
 					sub.propagate(sc, seeds, 3)
 					sub.scanEscapesCallee(sc, depth-1)
 					p.found = append(p.found, sub.found...)
+					p.goIn = append(p.goIn, sub.goIn...)
 				}
 			}
 		})
@@ -295,6 +302,7 @@ func (p *poolEscape) scanEscapesCallee(fn *ssa.Function, depth int) {
 						}
 						if isA {
 							p.found = append(p.found, p.c.Pos(in.Pos())+": captured by a goroutine (in "+fname(fn)+") that is not joined before the buffer is returned to the pool")
+							p.goIn = append(p.goIn, fname(topParent(fn)))
 						}
 					}
 				}
@@ -314,6 +322,7 @@ func (p *poolEscape) scanEscapesCallee(fn *ssa.Function, depth int) {
 					sub.propagate(sc, seeds, 3)
 					sub.scanEscapesCallee(sc, depth-1)
 					p.found = append(p.found, sub.found...)
+					p.goIn = append(p.goIn, sub.goIn...)
 				}
 			}
 		})
@@ -498,7 +507,34 @@ func checkC01(c *Ctx, r *Report) {
 					r.Bad("C01-R1", key+":escapes", gv.(ssa.Instruction).Pos(), "memory of a pooled object stays reachable after it is returned to the pool: the next request that takes the object overwrites bytes this request still uses", direct...)
 				}
 				if len(gor) > 0 {
-					r.Bad("C01-R1", key+":goroutine", gv.(ssa.Instruction).Pos(), "a goroutine that is not joined keeps writing into / reading from the pooled buffer after the function has returned it to the pool", gor...)
+					// named by the function that starts the goroutine, not by the one that borrows the buffer: splitting or
+					// renaming the borrower does not turn a listed finding into a new one, another starter does
+					// named by the pool, with an ordinal among the distinct functions that start such a goroutine: neither
+					// splitting the borrower nor moving the `go` statement into a helper renames a listed finding, while a
+					// second starter on the same pool is a new key (`#2`)
+					gkey := key
+					if pn := poolNameOf(gv); pn != "" {
+						gkey = pn + ":pool-borrow"
+					}
+					sort.Strings(pe.goIn)
+					starters := 0
+					last := ""
+					for _, g := range pe.goIn {
+						if g != last {
+							starters++
+							last = g
+						}
+					}
+					if starters == 0 {
+						starters = 1
+					}
+					for i := 1; i <= starters; i++ {
+						k := gkey + ":goroutine"
+						if i > 1 {
+							k = fmt.Sprintf("%s:goroutine#%d", gkey, i)
+						}
+						r.Bad("C01-R1", k, gv.(ssa.Instruction).Pos(), "a goroutine that is not joined keeps writing into / reading from the pooled buffer after the function has returned it to the pool", gor...)
+					}
 				}
 				if len(direct) == 0 && len(gor) == 0 {
 					r.OK("C01-R1", key, gv.(ssa.Instruction).Pos(), "no escape")
@@ -803,4 +839,33 @@ func checkC01(c *Ctx, r *Report) {
 			Edits: []Edit{{"internal/adapter/proxy/core/retry.go", "// RetryHandler manages connection failure recovery and endpoint failover\n", "var retryBufPool = sync.Pool{New: func() any { return new(bytes.Buffer) }}\n\n// RetryHandler manages connection failure recovery and endpoint failover\n"},
 				{"internal/adapter/proxy/core/retry.go", "	\"strings\"\n	\"syscall\"\n", "	\"strings\"\n	\"sync\"\n	\"syscall\"\n"}}},
 	)
+}
+
+// poolNameOf: the pool a Get call borrows from, as <pkg>.<Type>.<field> (`s.bufferPool.Get()` → sherpa.Service.bufferPool).
+func poolNameOf(get ssa.Value) string {
+	call, ok := get.(*ssa.Call)
+	if !ok {
+		return ""
+	}
+	var recv ssa.Value
+	if call.Call.IsInvoke() {
+		recv = call.Call.Value
+	} else if len(call.Call.Args) > 0 {
+		recv = call.Call.Args[0]
+	}
+	for d := 0; d < 4 && recv != nil; d++ {
+		switch x := recv.(type) {
+		case *ssa.UnOp:
+			recv = x.X
+		case *ssa.FieldAddr:
+			if o, fld, ok := fieldOf(x); ok && fld != nil {
+				t := strings.TrimPrefix(deref(o).String(), modPath+"/")
+				return t + "." + fld.Name()
+			}
+			return ""
+		default:
+			return ""
+		}
+	}
+	return ""
 }
